@@ -11,6 +11,7 @@
    tally. *)
 From Coq Require Import ZArith List Bool Permutation.
 From Tally Require Import Base.ObsCore Model.Buckets Proof.BucketsP Model.Snapshot Proof.SnapshotP.
+From Tally Require Model.SnapConc Proof.SnapConcP.
 Import ListNotations.
 Open Scope Z_scope.
 
@@ -159,4 +160,55 @@ Example C11_tally_example :
   recs_for root [] k ops = [RInc 5; RInc (-2)] /\
   alookup mkey_eqb k (tmet (trun root ops)) = Some (TSum 3) /\
   length (tmet (trun root ops)) = 2%nat.
+Proof. vm_compute. repeat split. Qed.
+
+(* ---- snapshots concurrent with recording (Model/SnapConc.v) ----
+   Recorders and snapshot walks interleave under an arbitrary schedule; a recording is announced
+   (ghost count [started]), takes effect atomically on its metric, and is then noted complete (ghost
+   count [done_]); a walk captures [lo] := done_ when it begins, reads each metric it visits once,
+   and captures [hi] := started when it ends.  The state of a metric is the log of the recorded
+   values (counter = its sum, timer = the log in order, histogram = C03's classification of it).
+   For every configuration of threads and EVERY schedule, every entry of a finished walk is a
+   point-in-time copy: a suffix (= the oldest part) of the metric's log, holding at least the
+   recordings completed before the walk began and at most those announced before it ended - the
+   bounds the harness checks on snapshots taken while other goroutines record - and it stays a
+   suffix of the log whatever is recorded later. *)
+Theorem C11_concurrent_snapshot_bounds : forall ths sched i todo lo got hi k l,
+  forallb SnapConc.init_thr ths = true ->
+  let s := SnapConc.run (SnapConc.init ths) sched in
+  nth_error (SnapConc.thrs s) i = Some (SnapConc.TSnap 2 todo lo got hi) -> In (k, l) got ->
+  (lo k <= length l <= hi k)%nat /\ exists newer, SnapConc.mets s k = newer ++ l.
+Proof. exact SnapConcP.conc_snapshot_bounds. Qed.
+Print Assumptions C11_concurrent_snapshot_bounds.
+
+(* at every moment: completions <= effects <= announcements, per metric *)
+Theorem C11_concurrent_counts_ordered : forall ths sched k,
+  forallb SnapConc.init_thr ths = true ->
+  let s := SnapConc.run (SnapConc.init ths) sched in
+  (SnapConc.done_ s k <= length (SnapConc.mets s k) <= SnapConc.started s k)%nat.
+Proof. exact SnapConcP.conc_counts_ordered. Qed.
+Print Assumptions C11_concurrent_counts_ordered.
+
+(* a metric nobody was recording into while the walk ran is shown exactly *)
+Theorem C11_concurrent_snapshot_exact_when_quiet : forall ths sched i todo lo got hi k l,
+  forallb SnapConc.init_thr ths = true ->
+  let s := SnapConc.run (SnapConc.init ths) sched in
+  nth_error (SnapConc.thrs s) i = Some (SnapConc.TSnap 2 todo lo got hi) -> In (k, l) got ->
+  lo k = hi k -> length l = lo k.
+Proof. exact SnapConcP.conc_snapshot_exact_when_quiet. Qed.
+Print Assumptions C11_concurrent_snapshot_exact_when_quiet.
+
+(* non-vacuity: two recorders on metric 0 (5, 7 and 11; then 2 on metric 1) and a walk over metrics
+   0 and 1 that reads metric 0 after the first effect and before the others: it shows [5]
+   (lo = 0 completed before it began, hi = 3 announced before it ended), the final log is 7, 11, 5 *)
+Example C11_concurrent_example :
+  let s := SnapConc.run (SnapConc.init [SnapConc.TRec 0 [(0%nat, 5); (0%nat, 7)];
+                                        SnapConc.TRec 0 [(0%nat, 11); (1%nat, 2)];
+                                        SnapConc.TSnap 0 [0%nat; 1%nat] SnapConc.zero [] SnapConc.zero])
+             [0; 0; 1; 2; 2; 0; 1; 0; 0; 1; 2; 2; 1; 1; 1; 0]%nat in
+  match nth_error (SnapConc.thrs s) 2 with
+  | Some (SnapConc.TSnap 2 _ lo got hi) =>
+      got = [(1%nat, []); (0%nat, [5])] /\ lo 0%nat = 0%nat /\ hi 0%nat = 3%nat /\ hi 1%nat = 0%nat
+  | _ => False
+  end /\ SnapConc.mets s 0%nat = [7; 11; 5] /\ SnapConc.mets s 1%nat = [2].
 Proof. vm_compute. repeat split. Qed.
